@@ -137,7 +137,10 @@ def eval_pair(task: tuple) -> dict:
 
     from .c03 import comma_pattern_in_union
 
+    from .c14_refkids import required_only
+
     doc_cause = "comma_in_pattern_in_union" if comma_pattern_in_union(doc) else "none"
+    req_only = required_only(doc)  # inherited members re-declared only through `required` (kind of their type)
     req_nullable = required_nullable_names(doc)
     arr_def = any(isinstance(v, dict) and v.get("type") == "array" for v in (doc.get("definitions") or {}).values())
     insts = semgen.valid_instances(doc)
@@ -182,7 +185,7 @@ def eval_pair(task: tuple) -> dict:
         for name, gopts, hopts in variants:
             out["evals"] += 1
             hit(f"option:{name}")
-            cls0 = {"option": name, "style": style, "cause": doc_cause, "array_def": arr_def}
+            cls0 = {"option": name, "style": style, "cause": doc_cause, "array_def": arr_def, "required_only": req_only}
             inp = {"doc": doc, "style": style, "option": name}
             if oa:
                 cls0["input"] = "openapi"
